@@ -2,6 +2,7 @@ package c13
 
 import (
 	"context"
+	"encoding/binary"
 	"errors"
 	"fmt"
 	"io"
@@ -248,6 +249,20 @@ type runCfg struct {
 	// pcLimit: a non-nil precommit above the node's height is held back when it would be the
 	// pcLimit-th sender for its (height, round, id). 3 = avoid the block-sync path only.
 	pcLimit int
+	// watch: after every completed Flush the harness looks at the log directory (file names, prune
+	// watermark) to learn when the store's amortised cleanup ran (long runs only; observation only).
+	watch bool
+}
+
+// cleanupRec: one observed run of the store's cleanup (the prune watermark file changed).
+type cleanupRec struct {
+	eff           int // number of the Flush effect inside which the cleanup ran
+	watermark     uint64
+	before, after []string // log files before / after
+	// liveHeights: heights above the watermark that had flushed entries (of this process life) in
+	// the log files written before the cleanup - what the cleanup must not lose
+	liveHeights []types.Height
+	liveEntries int
 }
 
 const (
@@ -294,6 +309,45 @@ type rec struct {
 	runErr       error
 	panicVal     string
 	closed       bool
+	lastWM       string
+	lastFiles    []string
+	cleanups     []cleanupRec
+	posEff       []int
+}
+
+// observeDirLocked (watch mode) notes a cleanup when the prune watermark file changed.
+func (r *rec) observeDirLocked(initial bool) {
+	dir := walstore.DefaultWALDir(r.cfg.dir)
+	var files []string
+	if ents, err := os.ReadDir(dir); err == nil {
+		for _, e := range ents {
+			if filepath.Ext(e.Name()) == ".log" {
+				files = append(files, e.Name())
+			}
+		}
+	}
+	wmBytes, _ := os.ReadFile(filepath.Join(dir, "prune-watermark"))
+	wm := string(wmBytes)
+	if !initial && wm != r.lastWM {
+		c := cleanupRec{eff: r.n, before: r.lastFiles, after: files}
+		if len(wmBytes) >= 8 {
+			c.watermark = binary.BigEndian.Uint64(wmBytes[len(wmBytes)-8:])
+		}
+		seen := map[types.Height]bool{}
+		for _, w := range r.wal {
+			if w.flushed && !w.prune && uint64(w.height) > c.watermark {
+				c.liveEntries++
+				if !seen[w.height] {
+					seen[w.height] = true
+					c.liveHeights = append(c.liveHeights, w.height)
+				}
+			}
+		}
+		r.cleanups = append(r.cleanups, c)
+		r.effects[len(r.effects)-1].note = fmt.Sprintf("  <- log cleanup ran: watermark %d, log files %v -> %v, flushed entries of live heights %v in them: %d",
+			c.watermark, c.before, c.after, c.liveHeights, c.liveEntries)
+	}
+	r.lastWM, r.lastFiles = wm, files
 }
 
 func (r *rec) isCrashed() bool {
@@ -440,6 +494,9 @@ func (p *walProxy) Flush() error {
 	} else {
 		p.r.mu.Lock()
 		p.r.markFlushedLocked()
+		if p.r.cfg.watch && !p.r.crashed {
+			p.r.observeDirLocked(false)
+		}
 		p.r.mu.Unlock()
 	}
 	p.r.leave()
@@ -847,6 +904,11 @@ func (r *rec) body() {
 		r.openErr = err
 		return
 	}
+	if cfg.watch {
+		r.mu.Lock()
+		r.observeDirLocked(true)
+		r.mu.Unlock()
+	}
 	r.sm, r.app = newSM(env, cfg.startH, cfg.inc)
 
 	propCh := make(chan *starknet.Proposal)
@@ -952,6 +1014,9 @@ func (r *rec) body() {
 			stopped = true
 			break
 		}
+		r.mu.Lock()
+		r.posEff = append(r.posEff, r.n) // effects performed before script position pos is reached
+		r.mu.Unlock()
 		if c := cfg.crash; c != nil && c.graceful && pos >= c.gracefulAt {
 			stopped = true
 			break
